@@ -16,7 +16,7 @@ DRIVER = 'Serialize'
 REQUIRED_THEOREMS = [
     'plain', 'idempotent', 'rejects', 'accepts', 'keeps_structure', 'roundtrip_partial',
     'plain_unchanged', 'plain_roundtrip_exact', 'hook_coherent', 'regex_source_is_modelled',
-    'dispatch_unique', 'tag_match_iff', 'bare_unit_nan_prefix_fails',
+    'dispatch_unique', 'tag_match_iff', 'bare_unit_nan_prefix_fails', 'token_pint_ok',
 ]
 ANCHORS = [
     ('vivarium/core/serialize.py', [
